@@ -57,6 +57,25 @@ Definition d_c11 (op : string) (a : val) : option val :=
                     vbool (aliased i o pres wr nat_);
                     VT (dtype_name (promote i o)); vbool (round_flag i o); vbool (clip_flag i o)])
       | _, _, _, _, _, _ => Some bad end
+  (* with the dtype assertion: chunk dtype, then as "convert" *)
+  | "convert_chk", VL [cd; i; o; pres; wr; nat_; vals] =>
+      match getD cd, getD i, getD o, getB pres, getB wr, getB nat_, getZs vals with
+      | Some cd, Some i, Some o, Some pres, Some wr, Some nat_, Some vals =>
+          Some (v_outcome (fun ra => VL [vZs (map (num_encode o) (fst ra)); vZs (map (num_encode cd) (snd ra))])
+                  (convert_checked cd i o pres wr nat_ (map (num_decode cd) vals)))
+      | _, _, _, _, _, _, _ => Some bad end
+  (* guards of the findings, per raw input value: (uint64_top, int64_via_float, float32_overflow) *)
+  | "guards", VL [i; o; vals] =>
+      match getD i, getD o, getZs vals with
+      | Some i, Some o, Some vals =>
+          Some (VL (map (fun z => let v := num_decode i z in
+                                  VL [vbool (uint64_top_guard i o v); vbool (int64_via_float_guard i o v);
+                                      vbool (float32_overflow_guard i o v)]) vals))
+      | _, _, _ => Some bad end
+  | "avg_guard", VL [dt; data] =>
+      match getD dt, getZs data with
+      | Some dt, Some data => Some (vbool (avg_uint64_guard dt [[[data]]]))
+      | _, _ => Some bad end
   (* oracle: nearest representable, saturating, for exact rationals *)
   | "nearest_sat", VL [o; qs] =>
       match getD o, getQs qs with
